@@ -163,10 +163,18 @@ def fp_value(x):
     if isinstance(x, float):
         return {'f': vlib.frac_json(x)}
     if isinstance(x, str):
-        if '==' in x:     # ParameterConstraint's own reading of '=='
-            a, b = x.split('==')
-            return _fingerprint(sympy.Eq(sympify(a), sympify(b)))
-        return _fingerprint(sympify(x))
+        try:
+            if '==' in x:     # ParameterConstraint's own reading of '=='
+                a, b = x.split('==')
+                return _fingerprint(sympy.Eq(sympify(a), sympify(b)))
+            e = sympify(x)
+        except vlib.Timeout:
+            raise
+        except Exception:   # noqa  a text the expression parser rejects ('(a < b) ^ (b < c)': known finding cons_text)
+            return {'s': 'U' + hashlib.sha1(x.encode()).hexdigest()[:10]}
+        if isinstance(e, bool):     # 'True' / 'a!=b' come out of the parser as a python bool
+            e = sympy.true if e else sympy.false
+        return _fingerprint(e)
     if hasattr(x, 'underlying_expression'):
         u = x.underlying_expression
         if hasattr(u, 'shape') and not isinstance(u, sympy.Basic):     # ExpressionVector
@@ -397,6 +405,10 @@ PROBES = [
 ]
 
 
+_extra_probes = []     # further parameter assignments of the running case (case['probes']: the constraint family needs
+#                        assignments that violate / satisfy each constraint)
+
+
 def _outcome(fn):
     try:
         return ('ok', fn())
@@ -542,7 +554,7 @@ def compare_behaviour(orig, loaded, stats, fresh=None):
     r['dur'] = da == db
     ok = True
     dev = 0.0
-    for params in PROBES:
+    for params in PROBES + list(_extra_probes):
         a = _program_obs(orig, params)
         b = _program_obs(loaded, params)
         stats['prog_' + a[0]] = stats.get('prog_' + a[0], 0) + 1
@@ -624,6 +636,7 @@ def _sres(exc):
 
 def run_impl(case):
     _case_counter[0] += 1
+    _extra_probes[:] = case.get('probes') or [] if case.get('kind') == 'store' else []
     path = os.path.join(TMP_ROOT, 'c%d' % _case_counter[0])
     try:
         with warnings.catch_warnings():
@@ -1139,7 +1152,7 @@ def classify(case, obs):
     float_precision_not_preserved: it loads, sharing intact, same class / name / list structure, same interface name sets,
       and every number of the rendered programs within the relative precision the lost digits explain"""
     flags = set(case.get('flags', []))
-    if 'crash' in obs or 'hang' in obs or not ({'int_key', 'float_prec'} & flags):
+    if 'crash' in obs or 'hang' in obs or not ({'int_key', 'float_prec', 'cons_text'} & flags):
         return None
     if case.get('kind') == 'store':
         if not _store_clauses_other_than_loads(case, obs):
@@ -1154,6 +1167,23 @@ def classify(case, obs):
         return None
     if not bad:
         return None        # nothing this finding could explain: whatever failed is something else
+    if 'cons_text' in flags:
+        # constraint_text_not_reparsable: the root (store cases only) fails to LOAD with ValueError and a document written
+        # for it holds a constraint text the parser does not read as a relation (a constant True / False, an unparsable text)
+        import sympy
+        odd = {_fingerprint(sympy.true)['s'], _fingerprint(sympy.false)['s']}
+
+        def doc_has_odd(x):
+            if isinstance(x, dict):
+                return any((k == 'parameter_constraints' and isinstance(v, list) and
+                            any(isinstance(c, str) and (c in odd or c.startswith('U')) for c in v)) or doc_has_odd(v)
+                           for k, v in x.items())
+            return isinstance(x, list) and any(doc_has_odd(e) for e in x)
+        if case.get('kind') == 'store' and all(
+                not b.get('ok') and b.get('why') == 'ValueError' and
+                any(doc_has_odd(obs['be'].get(i)) for i, _ in _named(snap(k), [])) for k, b in bad):
+            return 'constraint_text_not_reparsable'
+        return None
     if 'int_key' in flags:
         if all(_has_int_key(snap(k)) and (not b.get('ok') or (not b.get('eq') and b.get('share'))) for k, b in bad):
             return 'int_channel_key'
@@ -1367,7 +1397,7 @@ def search_failing(ctx, broken):
         if classify(case, obs) is None and _bad_loads(obs):
             return case, obs, 'a template with an optional argument declared as empty (%s) does not load back as the same pulse' % case.get('label')
     from props import c10_ord
-    for case in c10_ord.round4_cases('quick') + c10_ord.round5_cases('quick'):
+    for case in c10_ord.round4_cases('quick') + c10_ord.round5_cases('quick') + c10_ord.round6_cases('quick'):
         obs = run_impl(case)
         if classify(case, obs) is None and _bad_loads(obs):
             return case, obs, 'round-4 family case %s does not load back as the same pulse: %r' % (
